@@ -300,9 +300,14 @@ impl Property for C10 {
             let b = &builds[bi];
             let edir = ctx.subdir(&format!("c10-prefix-external-{name}"));
             for (k, f) in b.files.iter().enumerate() {
-                if f == "a.jbk" {
+                if f == "a.jbk" && (case.seed / 5) % 2 == 0 {
                     copy_rel(&b.dir, &edir, f);
                     continue;
+                }
+                if f == "a.jbk" {
+                    // every second case: the entry point too (TwoFiles: a container holding directory
+                    // and manifest; NoConcat: a bare manifest pack) sits at the end of a foreign file
+                    info.class("form:prefix-entry-point-of-several-files");
                 }
                 let mut data = prefix_bytes(&case.prefix_kind, case.prefix_len as usize, case.seed ^ (k as u32 * 77 + 5));
                 data.extend(std::fs::read(b.dir.join(f)).unwrap());
